@@ -1,3 +1,4 @@
+// vx: label-insensitive
 // Bounded replay of the three context-bundle compilers: real text (R1 only) of compile_recent_messages_v1,
 // compile_summaries_recent_messages_v1, compile_hierarchical_summaries_recent_messages_v1, both selection kernels,
 // ended_runs_by_message_id, aggregate_session_output_text, aggregate_output_text_from_events and ContextBundleV1::new,
@@ -141,7 +142,26 @@ fn check(codes: &[u8]) {
         } } }
     }
 }
+// selection kernels on their own: every stream of <= 6 frames, every cut, every checkpoint seq, limits 0..3
+fn select_clauses() {
+    let msg = |seq: u64| Event { id: format!("m{seq}"), session_id: "t".into(), timestamp_ms: 0, seq, kind: EventKind::ContinuityMessageAppended { actor_id: "u".into(), origin: "o".into(), content: format!("c{seq}") } };
+    let other = |seq: u64| Event { id: format!("r{seq}"), session_id: "t".into(), timestamp_ms: 0, seq, kind: EventKind::ContinuityRunSpawned { run_session_id: "s".into(), message_id: "m".into(), actor_id: None, origin: None } };
+    for n in 0..=6usize { for code in 0..(1usize << n) {
+        let events: Vec<Event> = (0..n).map(|i| if (code >> i) & 1 == 1 { msg(i as u64) } else { other(i as u64) }).collect();
+        for from in 0..=(n as u64) { for limit in 0..=3usize { for after in (0..=(n as u64)).map(Some).chain([None]) {
+            let got: Vec<u64> = match after { None => select_recent_messages(&events, from, limit).iter().map(|m| m.seq).collect(), Some(a) => select_recent_messages_after_seq(&events, from, a, limit).iter().map(|m| m.seq).collect() };
+            let all: Vec<u64> = events.iter().filter(|e| is_msg(e) && e.seq <= from && after.map(|a| e.seq > a).unwrap_or(true)).map(|e| e.seq).collect();
+            let want: Vec<u64> = all[all.len().saturating_sub(limit)..].to_vec();
+            if got != want {
+                println!("WITNESS {{\"function\": \"{}\", \"message_frame_seqs\": {:?}, \"stream_len\": {}, \"from_seq\": {}, \"after_seq\": {:?}, \"limit\": {}, \"selected\": {:?}, \"expected\": {:?}}}",
+                    if after.is_some() { "select_recent_messages_after_seq" } else { "select_recent_messages" }, events.iter().filter(|e| is_msg(e)).map(|e| e.seq).collect::<Vec<_>>(), n, from, after, limit, got, want);
+                std::process::exit(0);
+            }
+        } } }
+    } }
+}
 fn main() {
+    select_clauses();
     if RECENT_MESSAGES_V1_LIMIT != LIMIT { println!("WITNESS {{\"function\": \"RECENT_MESSAGES_V1_LIMIT\", \"value\": {}, \"documented_limit\": {}}}", RECENT_MESSAGES_V1_LIMIT, LIMIT); return; }
     let max_len: usize = if std::env::var("VX_TIER").as_deref() == Ok("thorough") { 7 } else { 6 };
     for n in 0..=max_len { for code in 0..4usize.pow(n as u32) { let mut c = code; let codes: Vec<u8> = (0..n).map(|_| { let o = (c % 4) as u8; c /= 4; o }).collect(); check(&codes); } }
